@@ -157,16 +157,22 @@ def sliced2 (t : ItemType) : Bool := t == .tQuestionDotIdent || t == .tQuestionD
 /-- the types of the items that end a stream (EOF, Error), and that of the zero item -/
 def notEnd (t : ItemType) : Bool := t != .tEOF && t != .tError && t != .tInvalid
 
+/-- the value of a token is the piece of the input that ENDS at the token's position -/
+def sliceOK (input : Array UInt8) (it : Item) : Bool :=
+  decide (it.val = (input.extract (it.pos - it.val.length) it.pos).toList)
+
 def itemOK (it : Item) : Bool :=
   (!sliced1 it.typ || decide (1 ≤ it.val.length)) && (!sliced2 it.typ || decide (2 ≤ it.val.length)) &&
     notEnd it.typ
 
 /-- number of items sent so far whose value is too short for the parser's slices, or that are
-    EOF items (the EOF item is only ever the very last one) -/
-def Lexer.bad (l : Lexer) : Nat := (l.items.toList.filter (fun it => !itemOK it)).length
+    EOF items (the EOF item is only ever the very last one), or whose value is not the piece of
+    the input in front of their position -/
+def Lexer.bad (l : Lexer) : Nat := (l.items.toList.filter (fun it => !(itemOK it && sliceOK l.input it))).length
 
 /-- the same count over all items but the last -/
-def Lexer.badInit (l : Lexer) : Nat := (l.items.toList.dropLast.filter (fun it => !itemOK it)).length
+def Lexer.badInit (l : Lexer) : Nat :=
+  (l.items.toList.dropLast.filter (fun it => !(itemOK it && sliceOK l.input it))).length
 
 /-- 1 unless `tagStart` is at a `{` of the input (or still 0): where `errorfAt(l.tagStart, …)`
     reports an unclosed tag -/
@@ -223,13 +229,14 @@ theorem mp_push' (l : Lexer) (it : Item) :
     Lexer.mp { l with items := l.items.push it } = max l.mp it.pos := by
   simp [Lexer.mp]
 
-theorem bad_push (l : Lexer) (it : Item) (li : Item) (st : Int) (h : itemOK it = true) :
+theorem bad_push (l : Lexer) (it : Item) (li : Item) (st : Int) (h : itemOK it = true)
+    (hs : sliceOK l.input it = true) :
     Lexer.bad { l with lastEmit := li, items := l.items.push it, start := st } = l.bad := by
-  simp [Lexer.bad, List.filter_append, h]
+  simp [Lexer.bad, List.filter_append, h, hs]
 
-theorem bad_push' (l : Lexer) (it : Item) (h : itemOK it = true) :
+theorem bad_push' (l : Lexer) (it : Item) (h : itemOK it = true) (hs : sliceOK l.input it = true) :
     Lexer.bad { l with items := l.items.push it } = l.bad := by
-  simp [Lexer.bad, List.filter_append, h]
+  simp [Lexer.bad, List.filter_append, h, hs]
 
 theorem badInit_push' (l : Lexer) (it : Item) :
     Lexer.badInit { l with items := l.items.push it } = l.bad := by
@@ -328,6 +335,9 @@ theorem emit_sat {l : Lexer} {t : ItemType} {Q : Lexer → Prop}
   · simp only [mp_push]; omega
   · simp only [mp_push]; omega
   · apply bad_push
+    rotate_left
+    · simp only [sliceOK, decide_eq_true_eq, Array.length_toList, Array.size_extract]
+      congr 2 <;> omega
     simp only [itemOK, Array.length_toList, Array.size_extract, Bool.and_eq_true, Bool.or_eq_true,
       Bool.not_eq_true', decide_eq_true_eq]
     refine ⟨⟨?_, ?_⟩, by simpa using hok.2.2⟩
